@@ -235,6 +235,16 @@ def gen_scenario(rng, **opts):
                     if rng.random() < 0.7:
                         acts.append(["bend"])
                 u["acts"][str(si)] = acts
+    # adjustment factors at the reduction threshold (2.5 is reduced, anything below is not) in a few scenarios: every runner of one
+    # market gets the boundary value; drawn from a generator of its own so that the main random stream stays as it was
+    br = random.Random("afboundary|%r|%r" % (len(markets), markets[0]["updates"][0]["runners"]))
+    if br.random() < opts.get("p_af_boundary", 0.12):
+        bm = br.choice(markets)
+        val = br.choice([2.5, 2.5, 2.5, 2.49, 2.51])
+        for u in bm["updates"]:
+            for r in u["runners"]:
+                if r.get("af") is not None:
+                    r["af"] = val
     # a limit of exactly zero ("risk nothing": the usual way to switch a strategy off) in a few scenarios; drawn from a
     # generator of its own so that the main random stream (and every recorded seed) stays as it was
     zr = random.Random("zero|%r|%r" % (sc["strategies"], markets[0]["updates"][0]["runners"][0]))
